@@ -2818,7 +2818,12 @@ where
                 if packet.return_code() == ConnectReturnCode::Accepted {
                     self.status = ConnectionStatus::Connected;
                     if packet.session_present() {
-                        events.extend(self.send_stored());
+                        let resent = self.send_stored();
+                        if !resent.is_empty() {
+                            events.extend(resent);
+                            // packets were sent: the PINGREQ interval restarts
+                            self.send_post_process(&mut events);
+                        }
                     } else {
                         self.clear_store_related();
                     }
@@ -2903,7 +2908,12 @@ where
                     }
 
                     if packet.session_present() {
-                        events.extend(self.send_stored());
+                        let resent = self.send_stored();
+                        if !resent.is_empty() {
+                            events.extend(resent);
+                            // packets were sent: the PINGREQ interval restarts
+                            self.send_post_process(&mut events);
+                        }
                     } else {
                         self.clear_store_related();
                     }
